@@ -59,6 +59,7 @@ class Gen:
         self.tools: T.List[dict] = []
         self.exes: T.List[dict] = []
         self.incvar: T.Dict[str, str] = {}
+        self.noflat = False
 
     def nid(self) -> int:
         self.n += 1
@@ -320,7 +321,8 @@ class Gen:
             self.tag('target-ct-sources')
         # generator outputs
         gen_hdrs: T.List[str] = []
-        for g in rng.sample(self.gens, min(len(self.gens), rng.choice([0, 0, 1, 2]))):
+        ngen = rng.choice([0, 1, 1, 2]) if kind in ('static_library', 'shared_library') else rng.choice([0, 0, 1, 2])
+        for g in rng.sample(self.gens, min(len(self.gens), ngen)):
             ident = f'gi{self.nid()}'
             self.files[os.path.join(d, ident + '.in')] = ident + '\n'
             positional.append(f"{g['var']}.process({q(ident + '.in')})")
@@ -334,22 +336,54 @@ class Gen:
             usable.append(rng.choice(cfgs))
         # dependencies
         dep_hdrs: T.List[dict] = []
+        reach: T.List[dict] = []             # generator-made headers of libraries this target links, however it reaches them
+        absorbed: T.List[str] = []           # functions of libraries whose objects end up inside this target (if a library)
+        dep_exprs = []
         for dp in deps:
             dep_hdrs += dp['hdrs']
             ext_funcs += dp['funcs']
+            reach += dp['reach_hdrs']
             self.tag('target-dependency')
+            if dp['all_static'] and dp['level'] == 1 and rng.random() < 0.3:
+                dep_exprs.append(dp['var'] + '.as_link_whole()')
+                absorbed += dp['funcs']
+                self.tag('dep-as_link_whole')
+                if dp['reach_hdrs']:
+                    self.tag('reach:as_link_whole')
+            else:
+                dep_exprs.append(dp['var'])
+                if dp['whole']:
+                    absorbed += dp['funcs']
+                if dp['reach_hdrs']:
+                    self.tag('reach:declare_dependency' + ('-link_whole' if dp['whole'] else '') +
+                             ('-two-level' if dp['level'] > 1 else ''))
         if deps:
-            kws.append('dependencies: [' + ', '.join(dp['var'] for dp in deps) + ']')
+            kws.append('dependencies: [' + ', '.join(dep_exprs) + ']')
+        installed = False
+        if kind == 'static_library' and rng.random() < 0.3 or kind == 'shared_library' and rng.random() < 0.15:
+            installed = True
+            kws.append('install: true')
         # libraries
         lw, lwh = [], []
         for lb in libs:
+            how = 'link_with-' + ('static' if lb['static'] else 'shared-or-both')
             if lb['static'] and rng.random() < 0.3:
                 lwh.append(lb['var'])
+                absorbed += lb['funcs']
+                how = 'link_whole'
                 self.tag('link_whole')
             else:
                 lw.append(lb['var'])
                 self.tag('link_with')
+                if kind == 'static_library' and installed and lb['static'] and not lb['installed']:
+                    # StaticLibrary.link(): an installed static library linking a non-installed one -> link_whole
+                    absorbed += lb['funcs']
+                    how = 'promoted-link_with'
+                    self.tag('static-promotion')
             ext_funcs += lb['funcs']
+            reach += lb['reach_hdrs']
+            if lb['reach_hdrs']:
+                self.tag('reach:' + how)
         if lw:
             kws.append('link_with: [' + ', '.join(lw) + ']')
         if lwh:
@@ -366,6 +400,12 @@ class Gen:
         ext_funcs = sorted(set(ext_funcs))
         for h in usable:
             incdirs += [h['dir']] + h['needs']
+        reach = list({h['file']: h for h in reach}.values())
+        if reach:
+            # included relative to the build root, e.g. "lib/libsta5.a.p/gi7.h"
+            incdirs.append('')
+            self.noflat = True
+            self.tag('consumer-of-reached-generator-header:' + kind)
         incs = sorted(set(self.inc_of(x) for x in incdirs))
         if incs:
             kws.append('include_directories: [' + ', '.join(incs) + ']')
@@ -373,7 +413,7 @@ class Gen:
         nsrc = rng.randint(1, 2)
         srcs = []
         funcs = []
-        all_h = usable + dep_hdrs
+        all_h = usable + dep_hdrs + reach
         for i in range(nsrc):
             is_main = (i == 0 and kind in ('executable', 'tool'))
             fn = f'f{self.nid()}'
@@ -408,18 +448,21 @@ class Gen:
         else:
             static = kind == 'static_library'
             # what a dependent may call: this library's own functions; through link_whole also the absorbed ones
-            exported = list(funcs + own_funcs)
-            for lb in libs:
-                if lb['var'] in lwh:
-                    exported += lb['funcs']
+            exported = list(funcs + own_funcs) + absorbed
             contains = set(funcs + own_funcs) | taken
+            own_priv: T.List[dict] = []
+            if kind in ('static_library', 'shared_library'):
+                pdir = os.path.join(d, f"lib{name}.{'a' if static else 'so'}.p")
+                own_priv = [{'file': os.path.join(pdir, hn), 'macro': hn[:-2].upper(), 'dir': '', 'ct': None, 'needs': [],
+                             'var': None} for hn in gen_hdrs]
+            reach_out = list({h['file']: h for h in own_priv + reach}.values())
             self.libs.append({'var': var, 'static': static, 'funcs': sorted(set(exported)), 'own_funcs': funcs + own_funcs,
-                              'contains': contains,
+                              'contains': contains, 'installed': installed, 'reach_hdrs': reach_out,
                               'self_contained': not ext_funcs, 'var_for_input': var if kind != 'both_libraries' else None})
             if rng.random() < 0.5:
                 # a dependency object: the library plus (maybe) generated headers for its users
                 dk = self.nid()
-                hs = [h for h in self.hdrs if h['ct'] and rng.random() < 0.4][:2]
+                hs = [h for h in self.hdrs if h['ct'] and h['var'] and rng.random() < 0.4][:2]
                 srcs_kw = ''
                 dincs: T.List[str] = []
                 for h in hs:
@@ -428,8 +471,16 @@ class Gen:
                     srcs_kw = ', sources: [' + ', '.join(h['var'] for h in hs) + ']'
                     srcs_kw += ', include_directories: [' + ', '.join(sorted(set(self.inc_of(x) for x in dincs))) + ']'
                     self.tag('declare_dependency-sources')
-                self.emit(d, f'dp{dk} = declare_dependency(link_with: {var}{srcs_kw})')
-                self.deps.append({'var': f'dp{dk}', 'hdrs': hs, 'funcs': sorted(set(exported)), 'contains': contains, 'lib': var})
+                whole = static and rng.random() < 0.25
+                self.emit(d, f"dp{dk} = declare_dependency({'link_whole' if whole else 'link_with'}: {var}{srcs_kw})")
+                dep = {'var': f'dp{dk}', 'hdrs': hs, 'funcs': sorted(set(exported)), 'contains': contains, 'lib': var,
+                       'reach_hdrs': reach_out, 'all_static': static, 'whole': whole, 'level': 1}
+                self.deps.append(dep)
+                if rng.random() < 0.35:
+                    dk2 = self.nid()
+                    self.emit(d, f'dp{dk2} = declare_dependency(dependencies: dp{dk})')
+                    self.deps.append(dict(dep, var=f'dp{dk2}', level=2))
+                    self.tag('declare_dependency-two-level')
 
 
 def gen_project(rng, max_items: int = 10) -> dict:
@@ -442,6 +493,8 @@ def gen_project(rng, max_items: int = 10) -> dict:
     if rng.random() < 0.7:
         dirs += rng.sample(['lib', 'gen', 'sub dir', 'tools'], rng.randint(1, 2))
     n = rng.randint(4, max_items)
+    if rng.random() < 0.5:
+        g.mk_generator('')
     cur = ''
     opened: T.List[str] = []
     for i in range(n):
@@ -473,4 +526,4 @@ def gen_project(rng, max_items: int = 10) -> dict:
     g.mk_target('', 'executable')
     for d, lines in g.lines.items():
         g.files[os.path.join(d, 'meson.build')] = '\n'.join(lines) + '\n'
-    return {'files': g.files, 'features': sorted(g.tags)}
+    return {'files': g.files, 'features': sorted(g.tags), 'noflat': g.noflat}
